@@ -803,6 +803,9 @@ def inferred_emptiness(facts):
             return "S"
         if k == "Call" and e.get("cname") == "empty":
             return "E"
+        if k == "Bin" and e.get("op") in ("==", "!=") and any(isinstance(strip_all(e[a]), dict) and strip_all(e[a]).get("k") == "Int" and strip_all(e[a]).get("v") == 0 for a in ("l", "r")) \
+                and any(isinstance(strip_all(e[a]), dict) and strip_all(e[a]).get("k") == "Call" and strip_all(e[a]).get("cname") == "size" for a in ("l", "r")):
+            return "E" if e["op"] == "==" else "!E"      # the normalised form of X.empty()
         if k == "Call" and e.get("cname") == "is_estimation_mode":
             return "M"
         if k == "Bin" and e.get("op") in ("==", "!=", "<") and ("MAX_THETA" in txt(e) or "9223372036854775807" in txt(e)):
@@ -813,7 +816,7 @@ def inferred_emptiness(facts):
         e = strip_all(e)
         a = atom(e)
         if a:
-            return (not env["M"]) if a == "!M" else env[a]
+            return (not env[a[1:]]) if a.startswith("!") else env[a]
         k = e.get("k")
         if k == "Bool":
             return bool(e.get("b", e.get("v")))
